@@ -140,6 +140,10 @@ class Gen:
             opts.append(("override", f["w_override"]))
         if ctx == "compose" and f.get("w_requireltl"):
             opts.append(("requireltl", f["w_requireltl"]))
+        if callees and ctx != "monitor" and f.get("w_choose"):
+            opts += [("choose", f["w_choose"]), ("shuffle", f.get("w_shuffle", 0))]
+        if f.get("w_draw"):
+            opts.append(("draw", f["w_draw"]))
         opts = [(o, w) for o, w in opts if w > 0]
         op = opts[self.t.weighted([w for _, w in opts], "stmt")][0]
         if op == "ev":
@@ -206,6 +210,26 @@ class Gen:
             return ["try", body, hs]
         if op == "requireltl":
             return ["requireltl", self.ltl_formula()]
+        if op in ("choose", "shuffle"):
+            n = self.t.intrange(2, 4, "choose.n")
+            dictform = self.t.chance(1, 2, "choose.dict")
+            items = []
+            for _ in range(n):
+                pool = [c for c in callees if not dictform or c not in [i[0] for i in items]]
+                if not pool:
+                    break
+                name = self.t.choice(pool, "choose.which")
+                items.append([name, self.t.intrange(1, 4, "choose.w") if dictform else 1])
+            return [op, items, bool(dictform)]
+        if op == "draw":
+            form = self.t.choice(["uniform", "options", "range"], "draw.form")
+            k = self.t.intrange(2, 3, "draw.k")
+            base = self.t.intrange(0, 5, "draw.base")
+            if form == "options":
+                vals = [[base + i, self.t.intrange(1, 3, "draw.w")] for i in range(k)]
+            else:
+                vals = [[base + i, 1] for i in range(k)]
+            return ["draw", vals, self.label(owner), form]
         if op == "override":
             obj = self.t.choice(self.objs_visible, "ovr.obj")
             prop = self.t.choice(["foo", "bar"], "ovr.prop")
